@@ -3629,6 +3629,11 @@ impl Zeroconf {
             // Binds a `listener` to querying mDNS domain type `ty`.
             //
             // If there is already a `listener`, it will be updated, i.e. overwritten.
+            // The earlier browse's pending retransmission is dropped, so that only one
+            // query schedule runs for this type.
+            self.retransmissions.retain(
+                |rerun| !matches!(&rerun.command, Command::Browse(t, _, _, _) if t == &ty),
+            );
             self.service_queriers.insert(ty.clone(), listener.clone());
             if cache_only {
                 self.cache_only_queriers.insert(ty.clone());
